@@ -3,6 +3,7 @@
 HARNESSES = {
     'mc_hash': dict(src=['mc_hash.c'], flavour='asan'),
     'mc_logmath': dict(src=['mc_logmath.c'], flavour='asan'),
+    'mc_jsgf': dict(src=['mc_jsgf.c'], flavour='asan', ldflags=['-Wl,--wrap=exit']),
     'mc_fsg': dict(src=['mc_fsg.c'], flavour='asan'),
     'mc_fe': dict(src=['mc_fe.c'], flavour='asan'),
     'mc_endpointer': dict(src=['mc_endpointer.c'], flavour='asan', ldflags=['-Wl,--wrap=vad_classify']),
@@ -68,7 +69,34 @@ def _fsg_runs(tier):
                for i in range(16)])
 
 
+def _jsgf_runs(tier, extra=()):
+    if tier == 'quick':
+        spaces = [['--s1', '4', '--s2', '3,3', '--s3', '3,1,1']]
+        n = 16
+    else:
+        spaces = [['--s1', '5', '--s2', '4,3', '--s3', '3,2,2']]
+        n = 48
+    return [dict(h='mc_jsgf', label='jsgf-%s-shard%d' % ('-'.join(sp[1::2]), i), args=sp + list(extra) + ['--shard', '%d/%d' % (i, n)])
+            for sp in spaces for i in range(n)]
+
+
 CHECKS = {
+    'C05': dict(
+        title='JSGF compilation preserves the language of the grammar',
+        level='exploration',
+        runs={'quick': _jsgf_runs('quick'), 'thorough': _jsgf_runs('thorough')},
+        budget_s={'quick': 300, 'thorough': 3000},
+        coverage=ex_cov,
+        rule='every JSGF grammar whose rules are syntax trees over {a, b, <s>, <x>, <y>, <undef>, <NULL>, <VOID>, ( ), [ ], *, +, '
+             'sequence, |}: 1 rule with <s> up to 4 nodes, 2 rules 3x3, 3 rules 3x1x1 (quick); 5 / 4x3 / 3x2x2 (thorough); each '
+             'rendered plain, with weights on every alternative, and decorated with tags, comments and a quoted token; compiled with '
+             'jsgf_build_fsg and jsgf_build_fsg_raw; oracle: least-fixpoint denotation (sets of strings up to 4 words) must equal '
+             'the set accepted by each FSG, grammars with reachable undefined references or non-tail recursion on a cycle must be '
+             'refused, weights per choice point sum to at most one (exactly one at the start state), a second build after building '
+             'another rule gives the same arcs. non-trivial = representable grammar accepting at least one string',
+        assumptions=['weights appear only at the head of alternatives, where JSGF allows them', 'imports are not explored',
+                     'a quoted token "a" is taken to mean the word a (the scanner keeps the quotes in the word string)'] + TRUST,
+    ),
     'C13': dict(
         title='grammar transformations and FSG files preserve the grammar',
         level='exploration',
@@ -151,6 +179,13 @@ CHECKS = {
 PENDING_REASON = {}
 
 MANIFEST_TEXT = {
+    'C05': dict(
+        text='Bounded exhaustive enumeration over JSGF programs: all grammars up to the stated tree sizes (about 3*10^5 quick, '
+             '3*10^6 thorough) are compiled by the real parser and compiler and compared with an independent denotational '
+             'semantics plus a static tail-recursion analysis; the compiler works by structural recursion on exactly these '
+             'constructors, so small trees reach every expansion case and every pairing of constructors.',
+        design_ref='DESIGN.md section 2, H5', technique='bounded exhaustive enumeration of programs against a denotational reference semantics',
+        note='two words, three rule names, strings compared up to length 4; imports and weights in non-head positions out of scope'),
     'C13': dict(
         text='Bounded exhaustive enumeration of grammars as programs: all FSGs up to 3 states / 3 arcs (quick) or 3/4 and 4/3 '
              '(thorough), as multisets so duplicate arcs, self-loops, null chains and cycles and unreachable states all occur, '
